@@ -155,3 +155,33 @@ CLAIMS["C15"] = {
     "technique": "static analysis: symmetric-field extraction from comparator predicates, class-hierarchy cover of an "
                  "isinstance test, must-pass-through normalisation on copies (alias check)",
 }
+
+CLAIMS["C04"] = {
+    "text": "Decides the structural clauses of the emission constraints, which are structural by nature: all two-qubit "
+            "constructors in graphiq/solvers/ are emitter-controlled; emitter->photon operations placed at initialisation are "
+            "labelled 'Fixed' before insertion; remove_op / replace_* / add_* moves filter their candidates as the property "
+            "requires (Fixed/Input/Output excluded, wrapper->wrapper on the same register, photon edges filtered by the "
+            "operation at edge[0], emitter edges only) and each move is followed by validate(); TimeReversedSolver inserts at "
+            "the front of the wire with the emission CNOT last on its photon; its result is the evaluated (score, circuit "
+            "copy). All constructor sites and moves, hence all seeds and move histories. Does not decide that "
+            "find_incompatible_edges is a sufficient cycle filter (validate() is the runtime guard).",
+    "ref": "DESIGN.md §5.4",
+    "note": "Assumption recorded in evidence: inverse_circuit's gate indices are >= n_photon once the two photonic-block asserts hold. "
+            "Named exception: EvolutionarySolver.add_measurement_cnot_and_reset adds a removable (non-initial) measure-and-reset.",
+    "technique": "static analysis: constructor-argument lint (who-may-create), typestate (label before insert), "
+                 "filter-shape checks on comprehensions, statement-order / dominance checks",
+}
+
+CLAIMS["C19"] = {
+    "text": "Decides structural necessary conditions of reproducibility and honest results: randomness only from the two global "
+            "generators seeded by SolverBase.seed; no set iterated into an ordered result in the solver modules (hash-seed "
+            "dependence); hall of fame / next population / seeded population / perturbed circuits hold copies, insert-pop-break "
+            "shape; score provenance (validate -> compile(circuit) -> evaluate(state, circuit) -> store with the same circuit, "
+            "no mutation in between) and result = hof[0]. Over all paths, hence all seeds, settings and generations. Does not "
+            "decide hall-of-fame ordering / monotone best score (np.isclose tolerance).",
+    "ref": "DESIGN.md §5.19",
+    "note": "Trusted: numpy/random global generators are deterministic given a seed; int-only sets (label queries) iterate "
+            "deterministically (advisory in circuit_dag label helpers).",
+    "technique": "static analysis: who-may-call lint for entropy sources, set-type inference + iteration lint, "
+                 "copy/alias check at storage sites, statement-order provenance check",
+}
